@@ -126,6 +126,42 @@ def run(ctx):
                                        "kwargs": repr(dc.py_kwargs(case))})
             elif val != exp_c:
                 res.mismatches.append({"case": case, "route": name, "c": val, "model_c": exp_c})
+        # ---- only_ub: every route returns the Euclidean bound (thresholds / pruning do not apply)
+        if i % 4 == 0 and not case.get("max_dist_I") and not case.get("use_pruning"):
+            from dtaidistance import dtw, dtw_ndim
+            nd = case.get("ndim", 1)
+            s1 = impl.to_container(case["s1"], "numpy", nd)
+            s2 = impl.to_container(case["s2"], "numpy", nd)
+            kw = dc.py_kwargs(case)
+            mod = dtw if nd == 1 else dtw_ndim
+            exp_ub = impl.canon(dc.expected_from_internal(case, outp["ed"]))
+            routes = {"distance(only_ub)": lambda: mod.distance(s1, s2, only_ub=True, **kw),
+                      "distance(use_c, only_ub)": lambda: mod.distance(s1, s2, only_ub=True, use_c=True, **kw),
+                      "distance_fast(only_ub)": lambda: mod.distance_fast(s1, s2, only_ub=True, **kw)}
+            vals = {}
+            for name, fn in routes.items():
+                try:
+                    vals[name] = impl.canon(fn())
+                except BaseException as ex:
+                    if isinstance(ex, (KeyboardInterrupt, SystemExit)):
+                        raise
+                    vals[name] = impl.exc_name(ex)
+            res.hit("only_ub")
+            r_, c_ = dc.npoints(case)
+            mld = case.get("max_length_diff")
+            for name, v in vals.items():
+                if agree(v, vals["distance(only_ub)"]):
+                    continue
+                if mld is not None and abs(r_ - c_) > mld and vals["distance(only_ub)"] == "inf" and agree(v, exp_ub):
+                    if mld == 0 and ctx.known(res, "C02-MLD0", case):
+                        continue
+                    if mld > 0 and ctx.known(res, "C02-ONLYUB-MLD", case):
+                        continue
+                res.violations.append({"clause": "only_ub: C engine == Python engine", "route": name, "case": case,
+                                       "c": v, "python": vals["distance(only_ub)"], "euclidean": exp_ub})
+            if vals["distance(only_ub)"] != "inf" and not agree(vals["distance(only_ub)"], exp_ub):
+                res.mismatches.append({"case": case, "route": "distance(only_ub)", "python": vals["distance(only_ub)"],
+                                       "model_ed": exp_ub})
     return res
 
 
